@@ -33,7 +33,7 @@ ASSUMPTIONS = [
     "a sentinel still present after 20 s while the tracker is alive counts as 'not deleted at zero'; a dead tracker as 'tracker stopped'",
 ]
 SHARDS = {"quick": 10, "thorough": 14}
-FLOORS = {"quick": {"e2e_runs": 6, "scripts": 120, "requests_checked": 1500, "malformed_requests": 200, "clients_killed": 40, "deletions_at_zero": 100, "zero_reached_while_path_missing": 40, "created_again_after_zero_while_missing": 30, "requests_longer_than_4000_bytes": 60},
+FLOORS = {"quick": {"e2e_runs": 6, "scripts": 120, "requests_checked": 1500, "malformed_requests": 200, "clients_killed": 40, "deletions_at_zero": 100, "zero_reached_while_path_missing": 40, "created_again_after_zero_while_missing": 30, "requests_longer_than_4000_bytes": 60, "requests_under_the_other_resource_type": 25},
           "thorough": {"e2e_runs": 50, "scripts": 2500, "requests_checked": 40000, "malformed_requests": 4000, "clients_killed": 800, "deletions_at_zero": 2000, "zero_reached_while_path_missing": 800, "created_again_after_zero_while_missing": 600, "requests_longer_than_4000_bytes": 1200}}
 CLIENT = os.path.join(harness.VERIF, "checks", "c20_client.py")
 
@@ -380,7 +380,26 @@ def run_case(case, ctx):
                 continue
             elif k < b_mal:
                 # malformed / unbalanced
-                kind = rng.choice(["garbage", "nonascii", "unknown-type", "unknown-cmd", "dec-unknown", "unreg-unknown", "no-colon", "empty"])
+                kind = rng.choice(["garbage", "nonascii", "unknown-type", "unknown-cmd", "dec-unknown", "unreg-unknown", "no-colon", "empty", "cross-type", "cross-type", "cross-type"])
+                if kind == "cross-type":
+                    # a release / withdrawal of a path under the OTHER resource type than the one it is (or may be) registered
+                    # with: that type's registry does not know the name - the request must not touch the path's real entry
+                    p = rng.choice(existing) if existing and rng.random() < 0.8 else rng.choice(tracked_files + folders)
+                    other = "file" if rt_of(p) == "folder" else "folder"
+                    if len(p) <= 400 and p not in count[other]:
+                        op = rng.choice(["MAYBE_UNLINK", "MAYBE_UNLINK", "UNREGISTER"])
+                        cl.send(op=op, name=p, rtype=other)
+                        script.append((ci, op + "_UNDER_THE_OTHER_TYPE", os.path.basename(p)[:40], other, "count=%s" % count[rt_of(p)].get(p)))
+                        stats["malformed"] += 1
+                        ctx.count("requests_under_the_other_resource_type")
+                        why = sync()
+                        ctx.count("requests_checked")
+                        if why or not check(script[-1]):
+                            if why:
+                                ctx.violation("tracker-stopped" if why == "tracker-died" else "tracker-stopped-answering", f"after {script[-1]}", dict(desc, script=list(script)))
+                            ok = False
+                            break
+                    continue
                 raw = {"garbage": b"\x00\x01\x02 what:ever\n", "nonascii": "REGISTER:/tmp/é:file\n".encode("utf8"),
                        "unknown-type": f"REGISTER:{d}/x:noexist\n".encode(), "unknown-cmd": f"FROBNICATE:{d}/x:file\n".encode(),
                        "dec-unknown": f"MAYBE_UNLINK:{d}/never-registered:file\n".encode(), "unreg-unknown": f"UNREGISTER:{d}/never-registered:folder\n".encode(),
